@@ -265,6 +265,11 @@ def c04(ctx, rep):
             fam.append(("inlined-leaf-%s-%s" % (wk, bk),
                         hdr + "Start <- Expr Term !.\nExpr <- Leaf '+' Expr / Leaf\nTerm <- Leaf '*' Term / Leaf\nLeaf <- %s\n" % leaf,
                         [["-optimize-grammar"]]))
+    # what the initializer block may contain is Go, not a format string: percent signs as operator, in Printf verbs, in comments
+    init_pct = "{\npackage main\n\nimport \"fmt\"\n\n// 100% of the initializer is copied\nfunc rem(a, b int) int { return a % b }\n\nvar banner = fmt.Sprintf(\"%d%% %s %v\", rem(7, 4), \"x\", 1.5)\n}\n"
+    fam.append(("init-percent", init_pct + "A <- 'a' { return banner, nil }\n", [[], ["-optimize-parser"], ["-optimize-grammar", "-nolint"], ["-cache"]]))
+    fam.append(("block-percent", hdr + "A <- d:[0-9]+ { return len(c.text) % 3, nil } / &{ return 7%2 == 1, nil } 'x' #{ c.state[\"k\"] = 5 % 4; return nil }\n",
+                [[], ["-optimize-parser"], ["-optimize-grammar"]]))
     ucl = re.findall(r'^\t"(\w+)":', open(os.path.join(C.REPO, "unicode_classes.go")).read(), re.M)
     for i in range(0, len(ucl), 40):
         chunk = ucl[i:i + 40]
